@@ -11,7 +11,7 @@ CHECKS = {
              "effect call) is compiled and run by hy; TLC validates the observed effect log, result and final "
              "globals against specs/HyCore.tla, whose invariants (unselected branches silent, short-circuit, "
              "ordered forms one child at a time) are checked on every state; small programs are also explored "
-             "exhaustively by TLC and the observed outcome must be in the exported set.",
+             "exhaustively by TLC and the observed outcome must be in the exported set. Families with their own structure ride along: nested conditionals under every truth assignment, values whose truthiness changes, every assigning form x every value that is left in a compiler temporary x every way of consuming the assignment, temporary-needing constructs side by side in every kind of slot, and HyCompr's comprehension programs.",
         note="Trusts the renderer/projection, CPython primitives on small values; recursion, call depth > 3 and "
              "string arithmetic are out of the modelled fragment and only counted."),
     "C02": dict(
@@ -59,7 +59,7 @@ CHECKS = {
                   "lexical environment chain",
         text="Programs nesting let, fn, defn, setv, setx and calls over a shared 3-name pool (exhaustive by size, at "
              "module and function level, plus random deep) are run with each read wrapped as (e k x); TLC accepts the "
-             "run only if every read saw the value HyCore's environment chain prescribes and the final globals match.",
+             "run only if every read saw the value HyCore's environment chain prescribes and the final globals match. HyHoist gives what defn inside let does at every level; HyShadow gives, for 42 constructs that bind a let-bound name again (parameter kinds, nested let, assignments, loop / with / match targets, comprehension variables, their first iterable and assignments inside them, except variables, defn / defclass / import), what is read inside, after the construct and after the let.",
         note="defn of a name bound by an enclosing let is not generated (documented hoisting corner)."),
     "C07": dict(
         engine="scope", level="model_checking", design="5.1, 6/C07",
@@ -116,7 +116,7 @@ CHECKS = {
                   "validated by TLC against HyTempAlloc + final user variables validated against HyCore",
         text="On the C01 corpus with user names that resemble compiler temporaries, every identifier in the compiled AST "
              "must be a program name, hy, or _hy_-prefixed; the stream of temporaries issued by each compilation is "
-             "trace-validated by TLC (fresh and reserved); user variables keep their values (HyCore trace validation).",
+             "trace-validated by TLC (fresh and reserved); user variables keep their values (HyCore trace validation). Also: deep let chains over names ending in digits, one let binding the same names repeatedly with a closure after each binding, local macros with names that need mangling, and temporary-needing constructs side by side under constructs that need temporaries.",
         note="Identifier positions scanned are listed in the evidence; attribute chains rooted at hy count as hy."),
     "C13": dict(
         engine="riders", level="model_checking", design="5.10, 6/C13",
@@ -132,7 +132,7 @@ CHECKS = {
                   "unparsed program trace-validated by TLC against HyCore",
         text="Each corpus program (variable pool with Python keywords and a non-ASCII hyphenated name; fault at each "
              "effect) is run from the compiled AST and from the re-parsed hy2py text: the text must parse, both runs must "
-             "agree on effect log (with values), globals and exception type, and the re-parsed run is validated by TLC.",
+             "agree on effect log (with values), globals and exception type, and the re-parsed run is validated by TLC. Also every HyBind signature with annotations, numeric literals (negative, complex, huge) in 22 operand positions and 13 Python keywords in 17 naming positions.",
         note="hy2py's printing path is exercised through hy2py_worker on a sample; CPython's ast.unparse is trusted."),
     "C39": dict(
         engine="session", level="model_checking", design="5.9, 6/C39",
@@ -141,7 +141,7 @@ CHECKS = {
         text="HyEvalApi models hy_eval_user step by step (remember, compile, implicit import, user code assigning or "
              "deleting hy, raise at any point, restore in finally); TLC checks Restored on every history and exports them; "
              "each is replayed on real dicts (globals-only, separate locals, logging locals; absent/truthy/falsy entry) and "
-             "the recorded key writes are validated against the spec; the returned value is checked on HyCore programs.",
+             "the recorded key writes are validated against the spec; the returned value is checked on HyCore programs. The raise is an ordinary exception or one that is not an Exception (KeyboardInterrupt, SystemExit, GeneratorExit, a BaseException subclass).",
         note="hy.eval with neither globals nor locals (caller-frame locals) is not covered."),
     "C40": dict(
         engine="session", level="model_checking", design="5.9, 6/C40",
@@ -150,7 +150,7 @@ CHECKS = {
         text="HyRepl states NoRepeat/Recency/PrintedInOrder over all histories of ok/None/compile-fail/run-fail/print-fail "
              "inputs; every history is fed to a real REPL line by line and the recorded state after each runsource call is "
              "validated against the spec (which allows a failed input either to leave the stars or to shift None in); "
-             "random programs split at every line break are checked for continuation prompts and script equivalence.",
+             "random programs split at every line break are checked for continuation prompts and script equivalence. Lines may be empty inside a form; sessions over values of every kind (falsy ones included) must print exactly hy.repr of each non-None result.",
         note="Completeness of accumulated text is judged by hy's own reader (property C19 covers the reader)."),
     "C41": dict(
         engine="session", level="model_checking", design="5.9, 6/C41",
@@ -199,7 +199,7 @@ CHECKS = {
         text="The reader spec (recursive descent, one operator per reader method) gives every text an outcome in "
              "{models, LexException, PrematureEndOfInput}; TLC enumerates all texts <= 3 (thorough 4) characters over 30 "
              "syntax characters plus all f-string field texts and the real reader must produce the same class (never "
-             "another exception, always terminating); longer mutated programs are validated through TLC's file mode.",
+             "another exception, always terminating); longer mutated programs are validated through TLC's file mode. Characters outside the specification's alphabet (NUL, control characters, separators, a byte-order mark, a lone surrogate) are inserted into the enumerated texts; a reader that does not terminate is reported after 12 such texts.",
         note="Numeric-looking identifiers are left to HyReaderIdent (status unk here)."),
     "C19": dict(
         engine="reader", level="model_checking", design="5.4, 6/C19",
@@ -300,7 +300,7 @@ CHECKS = {
              "removed in finally); TLC checks that _seen is empty between top-level promotions whatever was raised and that "
              "the outcome depends on the value only (and that dropping the finally breaks this); histories are replayed on "
              "real lists, dicts, models and functions, and random nested values must satisfy eval(as_model(v)) = v and "
-             "idempotence.",
+             "idempotence. Existing model containers of every class holding unpromoted children, and cycles through them, are promoted too.",
         note="Value graphs whose cycles pass only through immutable models cannot be built and are skipped."),
     "C30": dict(
         engine="models", level="model_checking", design="5.5, 6/C30",
@@ -362,7 +362,7 @@ CHECKS = {
         text="HyExpand gives one expansion step and its fixpoint over chains of user macros ending in another macro, the "
              "Hy-level core macro when, the result-producing core form if, a function or an atom; TLC checks the laws for "
              "all environments and exports the expected forms; the real functions are called with module macros and with "
-             "the macros argument, results compared node by node, and the input model must be unchanged.",
+             "the macros argument, results compared node by node, and the input model must be unchanged. Every core macro that yields a compiler result (not only if) is tried with 7 argument shapes, directly and at the end of a macro chain: the form must come back unchanged and as a model.",
         note="Macro calls inside arguments are not expanded by these functions and are not generated."),
     "C37": dict(
         engine="macros", level="model_checking", design="5.7, 6/C37",
@@ -372,7 +372,7 @@ CHECKS = {
              "define-and-use-in-one-form items and require :readers is processed by the spec (a use needs an earlier "
              "definition in the same module or a require; reading fails at the first unknown #name; earlier forms have "
              "been evaluated); the real importer and hy_compile with a fresh HyReader must give the same results, errors "
-             "and per-module tables, and leave no current reader behind.",
+             "and per-module tables, and leave no current reader behind. After module B is loaded, continuation streams are read by a fresh reader and evaluated in B: the reader table belongs to the reader (FreshReaderStartsEmpty).",
         note="If module A fails to import, module B (which may require A) is not run."),
     "C38": dict(
         engine="gensym", level="model_checking", design="5.8, 6/C38",
@@ -383,7 +383,7 @@ CHECKS = {
              "(lock acquire/release, LOAD/STORE_GLOBAL of the counter) that the harness extracts from the "
              "gensym bytecode in /repo, for 2-4 threads; every terminal schedule and any counterexample is "
              "replayed on real threads under a sys.monitoring scheduler, and every schedule the real threads "
-             "can take (stateless DFS) is recorded and validated by TLC against HyGensymTrace.",
+             "can take (stateless DFS) is recorded and validated by TLC against HyGensymTrace. Labels of up to 200 characters, repeated, sequentially and from threads, must still give distinct, reserved, mangled symbols.",
         note="Trusts CPython bytecode atomicity and that the counter is only touched via LOAD/STORE_GLOBAL "
              "in gensym's own code object; argument-string part is exhaustive over a 16-symbol alphabet."),
 }
